@@ -668,8 +668,10 @@ fn gen_tops(rng: &mut Rng) -> Vec<TOp> {
             _ => {}
         }
         v.push(op);
-        // after a fold the stream has one element per iteration: stop there
-        if matches!(v.last(), Some(TOp::FoldSum)) {
+        // after a fold the stream has one element per iteration: stop there; the output of a
+        // non-exact count window is subject to the open finding F5 (its consequences downstream,
+        // e.g. the assertion of an event-time window, are not interesting): stop there too
+        if matches!(v.last(), Some(TOp::FoldSum | TOp::CountWin { exact: false, .. })) {
             break;
         }
     }
@@ -714,6 +716,9 @@ pub fn run_c06(args: &Args, report: &mut Report) {
                 continue;
             }
         }
+        if case < args.skip {
+            continue;
+        }
         let mut crng = rng.fork(case);
         let cfg = ScriptCfg { max_replicas: 5, max_steps_per_replica: 30, iterations: 1, keys: 3, ts_span: 8 };
         let script = Arc::new(gen_script(&mut crng, &cfg, &mut next_id));
@@ -733,6 +738,17 @@ pub fn run_c06(args: &Args, report: &mut Report) {
         // "across iterations": one case in four runs the operators as the body of a replay loop
         let in_loop = crng.chance(1, 4) && !ops.contains(&TOp::ToOne);
         let rounds = crng.usize(2, 3);
+        {
+            let w = json!({"engine":"scripts.watermarks","case":case,"shard":args.shard,"seed":args.seed,"layout":layout.name(),"lockstep":lockstep,
+                "ops":format!("{ops:?}"),"inside_replay_loop":in_loop,"batch":format!("{batch:?}"),"script_steps":script.steps.len(),"replicas":script.replicas});
+            crate::report::RESUME_FROM.store(case + 1, std::sync::atomic::Ordering::SeqCst);
+            crate::run::on_no_return(move |end, census, r| {
+                let mut d = w.clone();
+                d["error"] = json!(format!("job did not return: {end:?}"));
+                d["census"] = crate::run::census_json(census);
+                r.case(Verdict::Inconclusive, None, || d);
+            });
+        }
         let res = run_job(
             &layout,
             RunOpts { policy, ..Default::default() },
